@@ -267,13 +267,17 @@ func (e *env) judge(ci *caseIn) []byte {
 		e.viol(ci, "reformat-failed:"+ci.entry, ci.witness(map[string]any{"output": string(out), "error": fmt.Sprint(pv2, err2)}), "%s failed on its own output (%s): %v %v", ci.entry, ci.origin, pv2, err2)
 	case !bytes.Equal(out2, out):
 		// signature by cause: the second run re-adds an import the first one wrongly dropped;
-		// x/tools/imports merging several import declarations that carry comments; anything else.
+		// x/tools/imports sorting/merging import declarations that carry comments; a blank or
+		// duplicate import hazard in the input; anything else.
 		key := "not-idempotent:" + ci.entry
+		nImpDecl, impComment := importSectionComments(fsetX, fx)
 		switch {
 		case dropCause != "":
 			key = "not-idempotent:reimport-after-drop:" + dropCause
-		case importDeclsWithComments(fsetX, fx):
+		case nImpDecl >= 2 && impComment:
 			key = "not-idempotent:import-decls-merged-with-comments"
+		case impComment:
+			key = "not-idempotent:comments-in-import-block"
 		case hazard != "":
 			key = "not-idempotent:" + hazard
 		}
@@ -299,30 +303,29 @@ func specSet(l []impSpec) map[impSpec]int {
 	return m
 }
 
-// importDeclsWithComments: the file has at least two import declarations and a
-// comment inside (or trailing) its import section.
-func importDeclsWithComments(fset *token.FileSet, f *ast.File) bool {
+// importSectionComments reports how many import declarations the file has and
+// whether a comment sits inside (or trails) its import section.
+func importSectionComments(fset *token.FileSet, f *ast.File) (ndecl int, hasComment bool) {
 	var first, last *ast.GenDecl
-	n := 0
 	for _, d := range f.Decls {
 		if gd, ok := d.(*ast.GenDecl); ok && gd.Tok == token.IMPORT {
 			if first == nil {
 				first = gd
 			}
 			last = gd
-			n++
+			ndecl++
 		}
 	}
-	if n < 2 {
-		return false
+	if ndecl == 0 {
+		return 0, false
 	}
 	endLine := fset.Position(last.End()).Line
 	for _, cg := range f.Comments {
 		if cg.Pos() > first.Pos() && fset.Position(cg.Pos()).Line <= endLine {
-			return true
+			return ndecl, true
 		}
 	}
-	return false
+	return ndecl, false
 }
 
 // judgeImports applies the import oracle; it returns the cause class of a
